@@ -149,3 +149,7 @@ Example grammar_files_agree :
   Grammar.with_carbon_g4 = Grammar.with_carbon_ebnf /\ Grammar.without_carbon_g4 = Grammar.without_carbon_ebnf /\
   Grammar.rest_matches_g4 = true /\ Grammar.rest_matches_ebnf = true.
 Proof. repeat split; reflexivity. Qed.
+(* the ANTLR-generated recogniser (not modelled) carries the rule names and literals of this grammar *)
+Example generated_parser_matches_grammar :
+  Grammar.generated_parser_rule_names_match = true /\ Grammar.generated_parser_literals_match = true.
+Proof. split; reflexivity. Qed.
